@@ -169,8 +169,9 @@ def _strip_args(stm: str) -> str:
     return re.sub(r"\b([a-z_][A-Za-z_]*?)\d+\b", r"\1", body)
 
 
-def _atom_arities(body: str):
-    """arity of every atom-like token `name(...)` / bare `name` in a directive body, in order"""
+def _atom_arities(body: str, nonanon: bool = False):
+    """arity of every atom-like token `name(...)` / bare `name` in a directive body, in order; with nonanon only the
+    arguments other than `_` are counted"""
     import re
     out = []
     i = 0
@@ -180,17 +181,21 @@ def _atom_arities(body: str):
         if m.group(2) is None:
             out.append(0)
             continue
-        depth, commas, j = 1, 0, m.end()
+        depth, j, args, cur = 1, m.end(), [], ""
         while j < len(body) and depth:
             c = body[j]
             if c == "(":
                 depth += 1
             elif c == ")":
                 depth -= 1
-            elif c == "," and depth == 1:
-                commas += 1
+            if c == "," and depth == 1:
+                args.append(cur)
+                cur = ""
+            elif depth:
+                cur += c
             j += 1
-        out.append(commas + 1)
+        args.append(cur)
+        out.append(len([x for x in args if x.strip() != "_"]) if nonanon else len(args))
         i = j
     return out
 
@@ -210,8 +215,10 @@ def _d20_like(a: str, b: str) -> bool:
         return ha == hb
     if ka == "#edge" and ha != hb:
         return False
-    return _atom_arities(ba.split("[")[0]) == _atom_arities(bb.split("[")[0]) and ba.count("[") == bb.count("[") and \
-        ba.partition("[")[2] == bb.partition("[")[2]
+    lo, hi, got = _atom_arities(ba.split("[")[0], True), _atom_arities(ba.split("[")[0]), _atom_arities(bb.split("[")[0])
+    # a body atom keeps every argument that is not `_` (its body counts as usage); `_` positions may be projected away
+    return len(got) == len(hi) and all(l <= g <= h for l, g, h in zip(lo, got, hi)) and \
+        ba.count("[") == bb.count("[") and ba.partition("[")[2] == bb.partition("[")[2]
 
 
 def classify(text, flags, problem):
